@@ -19,6 +19,7 @@ def forced_parser(rng, k, constexpr):
     layouts = [
         [T(1, "while"), T(1, "wh"), T(2, "[a-z]+", "id"), T(0, ";")],
         [T(1, "if"), T(1, "ifx"), T(2, "[a-z]+", "id"), T(2, "[0-9]+(\\.[0-9]+)?", "num"), T(0, "."), T(1, "..")],
+        [T(2, "[a-z]+", "word"), T(1, "end"), T(0, ";"), T(2, "[0-9]", "digit"), T(0, "0"), T(1, "be")],      # regex terms listed BEFORE char/string terms they tie with: the regex wins
         [T(1, "ab"), T(2, "[a-c]+", "id"), T(0, "<"), T(1, "<="), T(1, "<<=")],
         [T(2, "[0-9]+", "int"), T(2, "[0-9]+\\.[0-9]+", "real"), T(0, "."), T(2, "[a-z][a-z0-9]*", "id")],
     ]
@@ -114,7 +115,7 @@ def gen_inputs(rng, p, n):
         if t["kind"] != 2: toks.append(t["data"])
         else:
             pat = bytes(t["data"]).decode()
-            toks.append([ord(c) for c in {"[0-9]+": "42", "[a-c]+": "abc", "x+y": "xxy", "[ab]c?": "ac", "(ab)+": "abab", "z|zz": "zz", "[0-9]+\\.[0-9]+": "3.14", "[0-9]+(\\.[0-9]+)?": "2.5", "[a-z]+": rng.choice(["whil", "w", "whilex", "i", "ifxy", "abc"]), "[a-z][a-z0-9]*": "x1", "\"[^\"]*\"": "\"a\nb\""}[pat]])
+            toks.append([ord(c) for c in {"[0-9]+": "42", "[a-c]+": "abc", "x+y": "xxy", "[ab]c?": "ac", "(ab)+": "abab", "z|zz": "zz", "[0-9]+\\.[0-9]+": "3.14", "[0-9]+(\\.[0-9]+)?": "2.5", "[a-z]+": rng.choice(["whil", "w", "whilex", "i", "ifxy", "abc", "end", "be", "end"]), "[0-9]": rng.choice(["0", "7", "0"]), "[a-z][a-z0-9]*": "x1", "\"[^\"]*\"": "\"a\nb\""}[pat]])
     by_l = {}
     for r in p["rules"]: by_l.setdefault(r["lhs"], []).append(r)
     def derive(sym, depth, out):
@@ -159,7 +160,7 @@ def w_bytes(bs): return f"{len(bs)} " + " ".join(str(b) for b in bs)
 FORCED_LAYOUT = [0]
 def main():
     outc, outcases, seed, npars, nin = sys.argv[1], sys.argv[2], int(sys.argv[3]), int(sys.argv[4]), int(sys.argv[5])
-    FORCED_LAYOUT[0] = seed % 4
+    FORCED_LAYOUT[0] = seed % 5
     rng = random.Random(seed)
     ps = [gen_parser(rng, k, constexpr=(k == 0)) for k in range(npars)]
     meta = {}
